@@ -58,11 +58,21 @@ def own_addr(case):
 
 def render_event(case, kind, who, d):
     a = own_addr(case) if who == 0 else FOREIGN
+    # directory names: '$FP' or, as Tor mostly sends them, '$FP~nickname' (one form per case; the mixed case is C15's)
+    nm = c15.dir_name(d, 1 if case.get('names') == 'long' else 0)
     if kind == 'UPLOAD':
-        return '650 HS_DESC UPLOAD %s UNKNOWN %s descid%d' % (a, c15.dir_fp(d), d)
+        return '650 HS_DESC UPLOAD %s UNKNOWN %s descid%d' % (a, nm, d)
     if kind == 'UPLOADED':
-        return '650 HS_DESC UPLOADED %s UNKNOWN %s' % (a, c15.dir_fp(d))
-    return '650 HS_DESC FAILED %s UNKNOWN %s REASON=UPLOAD_REJECTED' % (a, c15.dir_fp(d))
+        return '650 HS_DESC UPLOADED %s UNKNOWN %s' % (a, nm)
+    return '650 HS_DESC FAILED %s UNKNOWN %s REASON=UPLOAD_REJECTED' % (a, nm)
+
+
+PRE_KINDS = ['fs', 'fs_auth', 'eph']
+
+
+def same_dir_applies(case):
+    q = request(case)
+    return q is not None and not q['eph'] and q['hsdir']
 
 
 class FakePort(object):
@@ -193,6 +203,7 @@ def tor_rejects(case):
 def spec_preds(case):
     q = request(case)
     p4 = q is not None and q['auth'] == 'stealth' and case.get('clients', 1) == 2
+    p5 = same_dir_applies(case) and 'same' in case.get('pre', [])
     p3 = False
     answered = False
     for o in case['ops']:
@@ -200,7 +211,7 @@ def spec_preds(case):
             answered = True
         elif o[0] == 'disconnect' and answered:
             p3 = True
-    return [p3, p4]
+    return [p3, p4, p5]
 
 
 class P(core.Prop):
@@ -259,6 +270,45 @@ class P(core.Prop):
         reactor = FakeReactor(cur, case.get('bind_ok', True))
         own = own_addr(case)
         hsdir = os.path.join(tmp, 'hsdir')
+        # -- services the configuration already holds when the endpoint is asked for
+        pre_dirs = []
+        pre = list(case.get('pre', []))
+        if pre:
+            from txtorcon.onion import (FilesystemOnionService, FilesystemAuthenticatedOnionService,
+                                        EphemeralOnionService, DISCARD)
+
+            def mkdir_with_hostname(d, host):
+                os.makedirs(d)
+                with open(os.path.join(d, 'hostname'), 'w') as f:
+                    f.write(host + '\n')
+            for kind in pre:
+                if kind == 'fs':
+                    d = os.path.join(tmp, 'pre_fs')
+                    mkdir_with_hostname(d, 'preexistingplain.onion')
+                    cfg.HiddenServices.append(FilesystemOnionService(cfg, d, ['81 127.0.0.1:5001'], version=3))
+                    pre_dirs.append(os.path.realpath(d))
+                elif kind == 'fs_auth':
+                    d = os.path.join(tmp, 'pre_fs_auth')
+                    mkdir_with_hostname(d, 'preexistingauth1.onion cookiecookiecookiecook # client: carol')
+                    cfg.HiddenServices.append(FilesystemAuthenticatedOnionService(
+                        cfg, d, ['82 127.0.0.1:5002'], AuthBasic(['carol']), version=2))
+                    pre_dirs.append(d)
+                elif kind == 'eph':
+                    cfg.EphemeralOnionServices.append(EphemeralOnionService(
+                        cfg, ['83 127.0.0.1:5003'], hostname='preexistingephem.onion', private_key=DISCARD, version=3))
+                elif kind == 'same':
+                    mkdir_with_hostname(hsdir, own + '.onion')
+                    cfg.HiddenServices.append(FilesystemOnionService(cfg, hsdir, ['%d 127.0.0.1:5000' % case['pub']],
+                                                                     version=3))
+                else:
+                    raise ValueError(kind)
+            if cfg.needs_save():
+                cfg.save()
+                w.pump()
+                if any(l.startswith(b'SETCONF') for l in w.take_unanswered()):
+                    w.send('250 OK')
+                w.pump()
+                w.take_unanswered()
         state = {'port': None, 'tor_d': None}
 
         def on_line(line):
@@ -274,14 +324,23 @@ class P(core.Prop):
                         maps.append([int(pub), int(lp), host == '127.0.0.1'])
                 cur.append(['cmd', 'add_onion', maps])
             elif s.startswith('SETCONF'):
+                # SETCONF restates every HiddenServiceDir group; the mappings of THIS service are those of the
+                # groups that are not pre-existing; the pre-existing groups must all still be there
                 maps = []
                 import shlex
+                group = None
+                groups = []
                 for tok in shlex.split(s)[1:]:
-                    if tok.startswith('HiddenServicePort='):
+                    if tok.startswith('HiddenServiceDir='):
+                        group = tok[len('HiddenServiceDir='):]
+                        groups.append(group)
+                    elif tok.startswith('HiddenServicePort=') and group not in pre_dirs:
                         pub, tgt = tok[len('HiddenServicePort='):].split(' ', 1)
                         host, _, lp = tgt.rpartition(':')
                         maps.append([int(pub), int(lp), host == '127.0.0.1'])
                 cur.append(['cmd', 'setconf', maps])
+                if [g for g in pre_dirs if g not in groups]:
+                    cur.append(['otherline', 'a pre-existing service was dropped from SETCONF'])
             else:
                 cur.append(['otherline', s])
         w.on_line = on_line
@@ -575,7 +634,8 @@ class P(core.Prop):
     def to_coq(self, case, obs):
         cfg = Rec(g_route=self._route(case), g_pub=N(case['pub']), g_bound=N(BOUND),
                   g_pending=Bool(self._pending(case)), g_bind_ok=Bool(case.get('bind_ok', True)),
-                  g_two_clients=Bool(case.get('clients', 1) == 2))
+                  g_two_clients=Bool(case.get('clients', 1) == 2),
+                  g_same_dir=Bool('same' in case.get('pre', [])))
         return Rec(k_cfg=cfg, k_ops=L(self._op(o) for o in case['ops']),
                    k_obs=L(Rec(l_evs=L(self._ev(e) for e in r['evs']), l_open=N(r['open'])) for r in obs['recs']),
                    k_preds=L(Bool(b) for b in spec_preds(case)))
@@ -670,7 +730,10 @@ class P(core.Prop):
                                                      ['ev', F, 1, 1], ['ev', F, 0, 1], ['ev', S, 0, 1], ['stop']]),
                     ('disconnect-in-wait', False, True, [['reply'], ['ev', U, 0, 1], ['disconnect'], ['stop']]),
                     ('disconnect-after', False, True, [['reply'], ['ev', U, 0, 1], ['ev', S, 0, 1], ['disconnect'], ['stop']]),
-                    ('unfinished', False, True, [['reply'], ['ev', U, 0, 1], ['ev', F, 1, 1], ['ev', U, 0, 2], ['ev', F, 0, 1]])]
+                    ('unfinished', False, True, [['reply'], ['ev', U, 0, 1], ['ev', F, 1, 1], ['ev', U, 0, 2], ['ev', F, 0, 1]]),
+                    # a FAILED of the service before anything was attempted (e.g. a failed descriptor fetch) fails nothing
+                    ('failed-before-upload', False, True, [['reply'], ['ev', F, 0, 1], ['ev', U, 0, 1], ['ev', U, 0, 2],
+                                                           ['ev', S, 0, 2], ['stop']])]
         return out
 
     def _case(self, route, args, script, pub=80):
@@ -714,6 +777,16 @@ class P(core.Prop):
                     c2 = dict(c, clients=2)
                     variants = [c, c2] if sample is None else [c2 if (len(out) + i) % 2 else c]
                 for c in variants:
+                    n = len(out) + i
+                    if n % 2:
+                        c['names'] = 'long'
+                    # what the configuration already holds: nothing / each kind of other service / all of them /
+                    # (filesystem request with an explicit directory) a service with that very directory
+                    pre = [[], ['fs'], ['fs_auth'], ['eph'], ['fs', 'fs_auth', 'eph'], ['same'], ['fs_auth', 'same']][n % 7]
+                    if 'same' in pre and not same_dir_applies(c):
+                        pre = [p for p in pre if p != 'same']
+                    if pre and q is not None:
+                        c['pre'] = pre
                     k = core.case_key(c)
                     if k not in seen:
                         seen.add(k)
@@ -756,6 +829,9 @@ class P(core.Prop):
                     evs.insert(rng.randrange(0, len(evs) + 1), ['ev', kind, 1, d])
                 if rng.random() < 0.3:
                     evs = evs[:rng.randrange(0, len(evs) + 1)]
+                if rng.random() < 0.25:
+                    # an outcome event of the service for a directory nothing was attempted on (yet)
+                    evs.insert(rng.randrange(0, len(evs) + 1), ['ev', F, 0, rng.randrange(1, ndirs + 2)])
                 ops += evs
                 if rng.random() < 0.15:
                     ops.append(['disconnect'])
@@ -779,6 +855,14 @@ class P(core.Prop):
                 c['ops'] = c['ops'][:1]
             if request(c) is not None and request(c)['auth'] != 'none' and rng.random() < 0.4:
                 c['clients'] = 2
+            if rng.random() < 0.6:
+                c['names'] = 'long'
+            if request(c) is not None and rng.random() < 0.5:
+                pre = [k for k in PRE_KINDS if rng.random() < 0.4]
+                if same_dir_applies(c) and rng.random() < 0.15:
+                    pre.append('same')
+                if pre:
+                    c['pre'] = pre
             out.append(c)
         return out
 
@@ -791,6 +875,14 @@ class P(core.Prop):
         a = case['args']
         if case.get('clients', 1) == 2:
             yield dict(case, clients=1)
+        if case.get('names'):
+            yield {k: v for k, v in case.items() if k != 'names'}
+        for p in case.get('pre', []):
+            rest = [x for x in case['pre'] if x != p]
+            c2 = {k: v for k, v in case.items() if k != 'pre'}
+            if rest:
+                c2['pre'] = rest
+            yield c2
         for k in list(a):
             if k == 'method':
                 continue
@@ -801,6 +893,7 @@ class P(core.Prop):
     finding_preds = {
         'disconnect_while_waiting': lambda c, o: spec_preds(c)[0],
         'stealth_several_clients': lambda c, o: spec_preds(c)[1],
+        'directory_already_configured': lambda c, o: spec_preds(c)[2],
     }
 
 
